@@ -9,7 +9,8 @@ spec = {"version": [item..],     extra items appended to the default ~Version (V
         "curves":  [[mnemonic, unit, value, descr, [data..]]..],   first curve = index
         "other":   text,
         "well_edit": {mnemonic: [unit, value, descr]}  optional edits of default ~Well items,
-        "version_edit": {mnemonic: [unit, value, descr]}  optional edits of default ~Version items}
+        "version_edit": {mnemonic: [unit, value, descr]}  optional edits of default ~Version items,
+        "version_delete": [mnemonic..]  default ~Version items removed first}
 item = [mnemonic, unit, value, descr];  value = ["i", n] | ["f", hex] | ["s", text] | ["none"] | ["npi", n] | ["npf", hex]
 """
 import numpy as np
@@ -104,6 +105,8 @@ def build(spec):
     for k, (u, v, d) in (spec.get("version_edit") or {}).items():
         it = las.version[k]
         it.unit, it.value, it.descr = u, dec(v), d
+    for k in spec.get("version_delete", []):
+        del las.version[k]
     for m, u, v, d in spec.get("version", []):
         las.version.append(HeaderItem(m, u, dec(v), d))
     for m, u, v, d in spec.get("well", []):
@@ -275,15 +278,6 @@ def gen_items(rng, sec, n=None):
     if n >= 2 and rng.random() < 0.5:            # duplicate mnemonic
         a, b = rng.sample(range(n), 2)
         items[b][0] = items[a][0]
-    if n and rng.random() < 0.2:                  # blank mnemonic on a line with no further period
-        k = rng.randrange(n)
-        nodot = lambda t: t.replace(".", "")
-        v = items[k][2]
-        if v[0] in ("f", "npf"):
-            v = ["i", 3]
-        elif v[0] == "s":
-            v = ["s", nodot(v[1]).strip()]
-        items[k] = ["", nodot(items[k][1]) if unit_ok(nodot(items[k][1])) else "M", v, nodot(items[k][3]).strip()]
     if n and rng.random() < 0.7:                  # one item is strictly the widest in one of the three columns
         k = rng.randrange(n)
         col = rng.choice(["mnemonic", "unit", "value", "descr"])
@@ -295,6 +289,15 @@ def gen_items(rng, sec, n=None):
             items[k][2] = gen_value(rng, sec == "Curves", 22)
         else:
             items[k][3] = gen_text(rng, 30)
+    if n and rng.random() < 0.2:                  # blank mnemonic on a line with no further period
+        k = rng.randrange(n)
+        nodot = lambda t: t.replace(".", "")
+        v = items[k][2]
+        if v[0] in ("f", "npf"):
+            v = ["i", 3]
+        elif v[0] == "s":
+            v = ["s", nodot(v[1]).strip()]
+        items[k] = ["", nodot(items[k][1]) if unit_ok(nodot(items[k][1])) else "M", v, nodot(items[k][3]).strip()]
     return items
 
 
